@@ -84,6 +84,20 @@ theorem execute_returns_middleware_data {D E : Type} (scrub : RMw D E) (user : L
   cases hr : runLoop (scrub :: user) result with
   | mk log r => rw [hr] at h; simp at h; subst h; rfl
 
+/-- a middleware that fails — the scrubber included — leaves no data: the response it tripped over is not handed on -/
+theorem execute_error_no_data {D E : Type} (scrub : RMw D E) (user : List (RMw D E)) (result : D) (ee : Option E) (e : E)
+    (h : (runLoop (scrub :: user) result).2 = .error e) :
+    (execute scrub user result ee).2 = (none, some e) := by
+  unfold execute
+  cases hr : runLoop (scrub :: user) result with
+  | mk log r => rw [hr] at h; simp at h; subst h; rfl
+
+/-- in particular when the scrubber itself fails (it could not walk to a place it has to clean) -/
+theorem execute_scrubber_fails {D E : Type} (scrub : RMw D E) (user : List (RMw D E)) (result : D) (ee : Option E) (e : E)
+    (h : scrub.run result = .error e) :
+    execute scrub user result ee = ([scrub.id], none, some e) := by
+  simp [execute, runLoop, h]
+
 def FactsSafe (f : Facts.MwFacts) : Prop :=
   f.scrubFirst = true ∧ f.appendInOrder = true ∧ f.loopUnconditional = true ∧ f.errorAborts = true ∧
   f.returnsResultAndExecErr = true
